@@ -25,7 +25,7 @@ INVARIANTS
     StateIsFullReplay
     RestoreEqualsReplay
     FoldedXorRetained
-    OutputIffRetained
+    OutputOnlyRetained
     HorizonRespected
     ModOnlyPanicking
     ModSkippedEverywhere
